@@ -18,7 +18,8 @@ SPEC = {
               22: "spec_okb Status and StatusAll agree (C06)", 23: "spec_okb filtered listing = unfiltered listing restricted to the filter (C06)",
               24: "spec_okb queued/in-progress only while an operation is pending (C06)",
               30: "spec_okb a peer at most once per CID in the cluster-wide view (C06)",
-              31: "spec_okb allocated peers: own report or cluster_error; other members remote (C06)"},
+              31: "spec_okb allocated peers: own report or cluster_error; other members remote (C06)",
+              32: "spec_okb listing: an unreachable member is cluster_error for every listed CID (C06)"},
     "tags": {},
     "trusted": ["harness/stateless/c05_rig_test.go (see C05)", "harness/root/c06_global_test.go: scripted PinTracker RPC services on in-process libp2p hosts, "
                 "fake consensus (Peers, State over a real dsstate)", "go-libp2p-gorpc MultiCall / authorization errors"],
